@@ -275,6 +275,48 @@ def c13_6(ctx):
     return out
 
 
+def c13_7(ctx):
+    """IDENTITY: the leaf of a k-subset is found by equality, not by object identity"""
+    from sa.identity import identity_obligation
+    return identity_obligation(ctx, ["taproot"], "the control block of a leaf rebuilt from the same k keys is not found, so that subset cannot spend")
+
+
+def c13_8(ctx):
+    """finalize_p2tr_multisig matches each signature to its key with the message of the signature's own hash type
+    (64 bytes: SIGHASH_DEFAULT, 65 bytes: the last byte): the message verified must depend on the signature"""
+    spec = "tx:Tx.finalize_p2tr_multisig"
+    mod, fn = rl.get(ctx, spec)
+    ps = param_names(fn)
+    sigs = next((p for p in ps if p.startswith("sig")), None)
+    if sigs is None:
+        raise AnalysisError("finalize_p2tr_multisig: signature list parameter not found")
+    sites = rl.find_calls(fn, "verify_schnorr")
+    if not sites:
+        raise AnalysisError("finalize_p2tr_multisig: verify_schnorr call not found")
+    out = []
+    for n, c in sites:
+        if not c.args:
+            continue
+        oo = origins(fn, n.id, c.args[0])
+        if "call:sig_hash" not in oo:
+            out.append(ctx.err(spec, "message `%s` verified against each key does not come from sig_hash" % ast.unparse(c.args[0]), c, mod))
+            continue
+        # the hash type handed to sig_hash on the way to this message
+        hts = []
+        for n2, c2 in rl.find_calls(fn, "sig_hash"):
+            a = [k.value for k in c2.keywords if k.arg == "hash_type"] or c2.args[1:2]
+            hts.append((n2, c2, a[0] if a else None))
+        dep = [(n2, c2, a) for n2, c2, a in hts if a is not None and ("param:" + sigs) in origins(fn, n2.id, a)]
+        if dep:
+            out.append(ctx.ok(spec, "the message verified for a signature is sig_hash(..., hash_type) with the hash type read from that signature (`%s`)" % ast.unparse(dep[0][1]),
+                              c, mod, key="sig-hash-type"))
+        else:
+            n2, c2, a = hts[0]
+            out.append(ctx.bad(spec, "every signature is checked against `%s`, whatever hash type the signature carries: a 65-byte signature (explicit SIGHASH_ALL, ...) from the "
+                                     "right k-subset matches no key and the leaf spend is finalised with empty placeholders" % ast.unparse(c2), c2, mod, key="sig-hash-type"))
+    return out
+
+
 OBLIGATIONS = [
     ("C13.1", "ORDER", c13_1),
     ("C13.2", "GUARD", c13_2),
@@ -282,5 +324,7 @@ OBLIGATIONS = [
     ("C13.4", "LAYOUT", c13_4),
     ("C13.5", "RANGE must-pass", c13_5),
     ("C13.6", "GUARD polarity", c13_6),
+    ("C13.7", "IDENTITY", c13_7),
+    ("C13.8", "DATAFLOW", c13_8),
 ]
 FLOORS = {"C13.1": 7, "C13.2": 2, "C13.3": 7, "C13.4": 5}
